@@ -234,6 +234,12 @@ func run_simulation(args []string) {
 		}
 	}
 
+	// A model whose results go to an external writer process only closes that process from the hand-over of its
+	// last generation; when the model has no cells there, the process must still be told to finish and be waited for
+	for _, modelName := range modelNames {
+		models[modelName].closeOutputWriter()
+	}
+
 	verifEvent("mainexit")
 	simEnd := time.Now()
 	finalWriteElapsed := simEnd.Sub(generationsEnd)
